@@ -9,6 +9,18 @@ OUT = os.path.join(VERIF, "out")
 EVID = os.path.join(VERIF, "evidence")
 REPLAYS = os.path.join(OUT, "replays")
 KNOWN = os.path.join(VERIF, "known-findings.json")
+# the repository under test: /repo, or a snapshot of it for background runs (vp run --with-repo)
+REPO = os.environ.get("VERIF_REPO") or "/repo"
+
+
+def link_repo():
+    """harness/repo -> the repository under test (path dependency of the harness crate)"""
+    link = os.path.join(HARNESS, "repo")
+    if os.path.islink(link) and os.readlink(link) == REPO:
+        return
+    if os.path.islink(link) or os.path.exists(link):
+        os.remove(link)
+    os.symlink(REPO, link)
 
 TLC_NOISE = re.compile(r"^(TLC2|Running|Warning|\(|Parsing|Semantic|Starting|Implied|Computing|Finished|Progress|Model checking|Linting|Picked|  calculated|  Estimates|  because|  based on)")
 
@@ -52,6 +64,7 @@ def build_harness(profile="debug"):
     """(Re)build the harness against /repo's current working tree (path dependency)."""
     if profile in _built:
         return _built[profile]
+    link_repo()
     t0 = time.time()
     cmd = ["cargo", "build", "--offline", "--quiet"]
     if profile == "release":
